@@ -266,3 +266,150 @@ func mspecsAccess(tier string) []*mc.MSpec {
 		},
 	}}
 }
+
+// pick keeps the outcomes of a menu whose names are listed.
+func pickOutcomes(all []mc.Outcome, names ...string) []mc.Outcome {
+	var out []mc.Outcome
+	for _, o := range all {
+		for _, n := range names {
+			if o.Name == n {
+				out = append(out, o)
+			}
+		}
+	}
+	return out
+}
+
+// mspecsC13: query resources. One connection on the query resource test.q
+// with the queries a (normalised to n by the service), n and b; the client
+// subscribes and unsubscribes them in any order, the service mutates the
+// underlying data silently and announces it with a query event (answered per
+// query as model, as events, or not at all), and sends ordinary change events
+// on the resource without query (which must not touch the query resources). Get answers and query answers are actions.
+func mspecsC13(tier string) []*mc.MSpec {
+	sc := &mc.Scenario{
+		Name: "M/query", NoEvict: true, Init: queryInit(map[string]string{"a": "n"}),
+		Conns:    []mc.ConnSpec{{}},
+		Monitors: allMons(queryMon),
+		Menu: func(w *mc.World, r *mc.Req) []mc.Outcome {
+			if all := queryMenu(w, r); all != nil {
+				return pickOutcomes(all, "model", "events", "timeout")
+			}
+			return nil
+		},
+	}
+	return []*mc.MSpec{{
+		Name: "query", Scenario: sc,
+		MaxDepth: map[string]int{"quick": 8, "thorough": 11},
+		Alphabet: func(w *mc.World) []mc.MAct {
+			c := w.Conns[0]
+			if v := versionFirst(c, 0); v != nil {
+				return v
+			}
+			var out []mc.MAct
+			if pendingOn(c) < 2 {
+				for _, rid := range []string{"test.q?a", "test.q?n", "test.q?b", "test.q"} {
+					if c.Client.Direct[rid] < 1 {
+						out = append(out, sendAct(0, "subscribe."+rid, ""))
+					} else {
+						out = append(out, sendAct(0, "unsubscribe."+rid, ""))
+					}
+				}
+			}
+			if k := counter(w, "qe"); k < 3 {
+				out = append(out, svcAct(fmt.Sprintf("mutate+query%d", k+1), func(w *mc.World) {
+					bump(w, "qe")
+					v := fmt.Sprint(k + 1)
+					w.Svc.Silent("test.q?n", func(r *mc.SvcRes) { r.M["v"] = v })
+					w.Svc.Silent("test.q?b", func(r *mc.SvcRes) { r.M["v"] = v })
+					w.Svc.QueryEvent("test.q", fmt.Sprintf("_QE_%d", k+1))
+				}))
+			}
+			if k := counter(w, "ev"); k < 2 {
+				// an ordinary event on the resource name concerns the resource without query only
+				out = append(out, svcAct(fmt.Sprintf("q.w=%d", k+1), func(w *mc.World) { bump(w, "ev"); w.Svc.Change("test.q", "w", fmt.Sprint(k+1)) }))
+			}
+			return out
+		},
+	}}
+}
+
+// mspecsEvents: event application and system reset on shared resources with
+// two connections (one on the latest protocol, one legacy). The clients
+// subscribe and unsubscribe a collection c (which references x) and a model m
+// (which references x too); outside of reset windows the service emits the
+// numbered stream on x, adds to and removes from c and changes m; it mutates
+// c and x silently and announces that with a system reset whose re-fetches
+// succeed, fail or time out. Judged by the convergence oracle (C01) and the
+// stream oracle (C03, relaxed over reset windows) in the drain probe of every
+// state, and by the client protocol oracle (C02) on every frame.
+func mspecsEvents(tier string) []*mc.MSpec {
+	sc := &mc.Scenario{
+		Name: "M/events", NoEvict: true, Init: basicInit,
+		Conns:    []mc.ConnSpec{{}, {}},
+		Monitors: allMons(seqMonRelax),
+		Menu: func(w *mc.World, r *mc.Req) []mc.Outcome {
+			if isRefetch(w, r) {
+				return []mc.Outcome{w.OK(r), mc.ResErr("system.internalError"), mc.Timeout()}
+			}
+			return nil
+		},
+	}
+	return []*mc.MSpec{{
+		Name: "events", Scenario: sc,
+		MaxDepth: map[string]int{"quick": 7, "thorough": 10},
+		Alphabet: func(w *mc.World) []mc.MAct {
+			if v := versionFirst(w.Conns[0], 0); v != nil {
+				return v
+			}
+			var out []mc.MAct
+			for i, c := range w.Conns {
+				if pendingOn(c) >= 1 {
+					continue
+				}
+				rids := []string{"test.c"}
+				if i == 0 {
+					rids = append(rids, "test.m")
+				}
+				for _, rid := range rids {
+					if c.Client.Direct[rid] < 1 {
+						out = append(out, sendAct(i, "subscribe."+rid, ""))
+					} else {
+						out = append(out, sendAct(i, "unsubscribe."+rid, ""))
+					}
+				}
+			}
+			if noResetWindow(w) {
+				if counter(w, "x") < 3 {
+					out = append(out, svcAct("x+", func(w *mc.World) { bump(w, "x"); w.Svc.StreamNext("test.x") }))
+				}
+				if k := counter(w, "add"); k < 2 {
+					out = append(out, svcAct("c.add", func(w *mc.World) { bump(w, "add"); w.Svc.Add("test.c", 0, fmt.Sprintf(`"v%d"`, k)) }))
+				}
+				if counter(w, "rm") < 2 && len(w.Svc.Res["test.c"].C) > 0 {
+					out = append(out, svcAct("c.rm", func(w *mc.World) { bump(w, "rm"); w.Svc.Remove("test.c", len(w.Svc.Res["test.c"].C)-1) }))
+				}
+				if k := counter(w, "m"); k < 2 {
+					out = append(out, svcAct("m.a", func(w *mc.World) { bump(w, "m"); w.Svc.Change("test.m", "a", fmt.Sprint(k+2)) }))
+				}
+				if k := counter(w, "reset"); k < 2 {
+					out = append(out, svcAct("silent+reset", func(w *mc.World) {
+						bump(w, "reset")
+						w.Data["reset"] = true
+						w.Svc.Silent("test.c", func(r *mc.SvcRes) {
+							// rotate and duplicate: a diff with moves and repeated values
+							if len(r.C) > 0 {
+								r.C = append(append([]string{}, r.C[1:]...), r.C[0], `"dup"`, `"dup"`)
+							} else {
+								r.C = []string{`"dup"`}
+							}
+						})
+						w.Svc.Silent("test.x", func(r *mc.SvcRes) { r.M["s"] = fmt.Sprint(k + 1) })
+						w.Svc.Reset([]string{"test.c", "test.x"}, nil)
+					}))
+				}
+			}
+			return out
+		},
+	}}
+}
